@@ -130,6 +130,10 @@ class World:
             return FrozenSet[inner] if t[2] == 0 else frozenset[inner]
         if k == "dict":
             kt, vt = self.to_py(t[1]), self.to_py(t[2])
+            if t[3] >= 4:
+                # bare spellings (only generated for Any keys and values): no type arguments at all
+                import collections.abc
+                return {4: Mapping, 5: MutableMapping, 6: dict, 7: collections.abc.Mapping, 8: collections.abc.MutableMapping}[t[3]]
             return {0: Dict[kt, vt], 1: dict[kt, vt], 2: Mapping[kt, vt], 3: MutableMapping[kt, vt]}[t[3]]
         if k == "opt":
             return Optional[self.to_py(t[1])]
@@ -373,6 +377,8 @@ def gen_type(w: World, depth: int, cid_limit: int, hashable=False, self_cid=None
     if r < 0.52:
         return ("fset", sub(hashable=True), rng.randrange(2))
     if r < 0.68:
+        if rng.random() < 0.15 and p.get("any", True) and not hashable:
+            return ("dict", ("any",), ("any",), rng.randrange(9))      # Any / Any, incl. the bare spellings Mapping, MutableMapping, dict
         return ("dict", sub(hashable=True), sub(), rng.randrange(4))
     if r < 0.8:
         inner = sub()
@@ -476,7 +482,11 @@ def build_class(w: World, spec: ClassSpec):
             if f.default is not NODEFAULT:
                 if f.factory:
                     import copy
-                    kw["factory"] = (lambda v=f.default: copy.deepcopy(v))
+                    if w.rng.random() < 0.3:
+                        # a default computed from the instance (attrs.Factory(..., takes_self=True)): same value
+                        kw["default"] = attrs.Factory((lambda self, v=f.default: copy.deepcopy(v)), takes_self=True)
+                    else:
+                        kw["factory"] = (lambda v=f.default: copy.deepcopy(v))
                 else:
                     kw["default"] = f.default
             if f.type is not None:
@@ -556,7 +566,7 @@ def gen_value(w: World, t, depth: int):
     if k == "dict":
         d = {}
         for _ in range(size()):
-            kk = gen_value(w, t[1], depth - 1)
+            kk = gen_value(w, t[1], depth - 1) if t[1][0] != "any" else rng.choice(["k", "a", 1, 2, None, 1.5])     # Any keys: hashable atoms
             if kk not in d:
                 d[kk] = gen_value(w, t[2], depth - 1)
         return d
